@@ -1,6 +1,7 @@
 use crate::Comp;
 pub mod beans;
 pub mod co;
+pub mod join;
 pub mod local;
 pub mod nio;
 pub mod pool;
@@ -31,5 +32,6 @@ pub static ALL: &[Comp] = &[
     Comp { name: "trap", gen: trap::gen, exec: trap::exec, isolate_ms: 10000 },
     Comp { name: "sched", gen: sched::gen, exec: sched::exec, isolate_ms: 10000 },
     Comp { name: "pool", gen: pool::gen, exec: pool::exec, isolate_ms: 15000 },
+    Comp { name: "join", gen: join::gen, exec: join::exec, isolate_ms: 15000 },
     Comp { name: "pq", gen: queue::gen_pq, exec: queue::exec_pq, isolate_ms: 500 },
 ];
